@@ -185,6 +185,38 @@ func wfBack(q []trackerUpdate, k int, c uint32) bool {
 	return okBack(q[k], c) && wfBack(q, k-1, cntBefore(q[k], c))
 }
 
+// lemmaWfPrefix: well-formedness of q[0..k] depends on those entries only.
+//
+//@ lemma
+//@ props C07
+//@ requires -1 <= k && k < len(q) && k < len(q2)
+//@ requires forall j int :: 0 <= j && j <= k ==> __same(q2[j], q[j])
+//@ ensures wfBack(q2, k, c) == wfBack(q, k, c)
+//@ decreases k + 1
+func lemmaWfPrefix(q, q2 []trackerUpdate, k int, c uint32) {
+	if k >= 0 {
+		lemmaWfPrefix(q, q2, k-1, cntBefore(q[k], c))
+	}
+}
+
+// lemmaWfAppend: a queue that is well formed for a mailbox of c messages stays
+// well formed - for the count after the update - when an update that is well
+// formed for c messages (wfUpdate: what MailboxTracker.queueUpdate is proved to
+// stamp) is appended to it. Together with SessionTracker.queueUpdate appending
+// exactly the given update, this is the preservation step of the
+// representation invariant TrackerWF for one session (that it holds for every
+// session of the mailbox's map at once is not proved).
+//
+//@ lemma
+//@ props C07
+//@ requires len(q2) == len(q)+1
+//@ requires forall j int :: 0 <= j && j < len(q) ==> __same(q2[j], q[j])
+//@ requires wfBack(q, len(q)-1, c) && wfUpdate(q2[len(q)], c)
+//@ ensures wfBack(q2, len(q), cntAfter(q2[len(q)], c))
+func lemmaWfAppend(q, q2 []trackerUpdate, c uint32) {
+	lemmaWfPrefix(q, q2, len(q)-1, c)
+}
+
 // ---------------------------------------------------------------------------
 // Queue level: translating a server-view number to the client's view and back
 // gives the same number, for every well-formed queue of any length.
